@@ -1,2 +1,6 @@
 //! Environment doubles, event log, scheduler.
+pub mod doubles;
+pub mod driver;
 pub mod logsub;
+pub mod omaha;
+pub mod world;
